@@ -10,18 +10,20 @@ SPEC = {
     ],
     "not_modelled": [
         "@page cascade (addPageDeclarations)", "nested rules under a parent selector with a pseudo-element (the code drops the whole parent rule on the selector error)",
-        "`&` in a top-level rule (the code reads it as :root with specificity (0,1,0); excluded by hypothesis doc_no_top_amp)",
+        "`&` in a top-level rule is outside the domain of model = spec (hypothesis doc_no_top_amp): the faithful model weighs it (0,1,0) like the code, the specification 0; refuted statement C03_top_level_amp_refuted, documents of the `topamp` stream are compared with the specification (known finding C03/top-level-amp-specificity)",
         "invalid selectors / declarations (dropped before the cascade: C08)", "media queries other than media types (rejected as a whole by parseMediaQuery)",
         "@layer, @scope, @supports (skipped by preprocessStylesheet)", "UA !important declarations are ranked as plain UA declarations (CSS 2.1 table, as in the property text)",
     ],
     "codes": {"1": "the computed style does not hold the declaration the cascade specification selects",
               "3": "declarationPrecedence differs from the model's table", "4": "weight.Less differs from the model",
-              "5": "the flattened rule list (order, specificities, declarations) differs from flatten_rules"},
+              "5": "the flattened rule list (order, specificities, declarations) differs from flatten_rules",
+              "6": "the computed style differs from the SPECIFICATION (documents with `&` in a top-level rule, outside the model = spec theorem)"},
     "theorems_for_kind": {
         "pair": "C03_cascade_impl_spec", "triple": "C03_cascade_impl_spec", "random": "C03_cascade_impl_spec", "corpus": "C03_cascade_impl_spec",
         "precedence": "C03_precedence_table_correct", "less": "C03_weight_less_is_le", "flatten": "C03_flatten_preserves_order / C03_media_filter_sound",
+        "topamp": "C03_cascade_unrestricted_statement (refuted: C03_top_level_amp_refuted)",
     },
-    "rule": "corpus first; declarationPrecedence exhaustively; weight.Less on random/boundary weights; flattened matcher of random sheets; every ordered pair (thorough: x all placements, and every triple) of competing declarations over origin x importance x {hint attribute, hint sheet, (0,0,1), (0,1,0), (0,1,1), (1,0,0), (2,0,0), style attribute} x placement {plain, matching @media, non-matching @media, @import, nested &, nested list} x {same sheet, different sheets}; random documents (1-3 properties, 0-3 author sheets as <style>/<link>, UA, hint and user sheets, @import chains, nested rules, style and presentational attributes, ::before/::after/::marker selectors in a third of them, print/screen); non-trivial = some declaration wins on some element; distinct by Coq term",
+    "rule": "corpus first; declarationPrecedence exhaustively; weight.Less on random/boundary weights; flattened matcher of random sheets; every ordered pair (thorough: x all placements, and every triple) of competing declarations over origin x importance x {hint attribute, hint sheet, (0,0,1), (0,1,0), (0,1,1), (1,0,0), (2,0,0), style attribute} x placement {plain, matching @media, non-matching @media, @import, nested &, nested list} x {same sheet, different sheets}; top-level `&` against 9 rival selectors in both orders (compared with the specification); random documents (1-3 properties, 0-3 author sheets as <style>/<link>, UA, hint and user sheets, @import chains, nested rules, style and presentational attributes, ::before/::after/::marker selectors in a third of them, print/screen); non-trivial = some declaration wins on some element; distinct by Coq term",
 }
 MANIFEST = {
     "text": "Coq theorem cascade_impl_spec: the model of newStyleFor/preprocessStylesheet/PreprocessDeclarationsPrelude (insertion loops guarded by weight.Less, sheet order, @import/@media/nesting flattening) returns, for every document, element or pseudo-element and property, the arg-max of (origin+importance level, specificity rank with style attribute on top and hints at zero, order of appearance) among the declarations that apply; plus precedence table, Less = <=, flatten order, media filtering, total order. The model is compared with /repo on generated documents on every run (computed style read back through unique integer values).",
